@@ -124,3 +124,49 @@ Section V.
     end.
 End V.
 Arguments vst : clear implicits.
+
+(* ---- executable op language for the correspondence check (elements are integers standing for distinct nodes) *)
+Inductive vop :=
+| OSetSlice (a : Z) (b : idx) (new : list Z) | OSetOne (i : Z) (x : Z)
+| ODelSlice (a : Z) (b : idx) | ODelOne (i : Z)
+| OInsert (i : idx) (new : list Z) | OAppend (x : Z) | OExtend (xs : list Z)
+| OPrepend (x : Z) | OPrextend (xs : list Z) | OReplace (xs : list Z)
+| OExternal (f : list Z).
+
+Definition vstep (s : vst Z) (o : vop) : option (vst Z) :=
+  match o with
+  | OSetSlice a b new => setitem_slice s a b new
+  | OSetOne i x => setitem_one s i x
+  | ODelSlice a b => delitem_slice s a b
+  | ODelOne i => delitem_one s i
+  | OInsert i new => Some (vinsert s i new)
+  | OAppend x => Some (vappend s x)
+  | OExtend xs => Some (vextend s xs)
+  | OPrepend x => Some (vprepend s x)
+  | OPrextend xs => Some (vprextend s xs)
+  | OReplace xs => Some (vreplace s xs)
+  | OExternal f => Some (external s f)
+  end.
+
+(* observation after each op: (raised IndexError?, whole field, view items) *)
+Fixpoint vrun (s : vst Z) (ops : list vop) : list (bool * list Z * list Z) :=
+  match ops with
+  | [] => []
+  | o :: r => match vstep s o with
+              | Some s' => (false, fld s', vitems s') :: vrun s' r
+              | None => (true, fld s, vitems s) :: vrun s r
+              end
+  end.
+
+Fixpoint lz_eqb (a b : list Z) : bool :=
+  match a, b with [], [] => true | x :: a', y :: b' => Z.eqb x y && lz_eqb a' b' | _, _ => false end.
+Fixpoint obs_eqb (a b : list (bool * list Z * list Z)) : bool :=
+  match a, b with
+  | [], [] => true
+  | (e1, f1, i1) :: a', (e2, f2, i2) :: b' => Bool.eqb e1 e2 && lz_eqb f1 f2 && lz_eqb i1 i2 && obs_eqb a' b'
+  | _, _ => false
+  end.
+Definition oz_eqb (a b : option Z) : bool :=
+  match a, b with None, None => true | Some x, Some y => Z.eqb x y | _, _ => false end.
+Definition ozz_eqb (a b : option (Z * Z)) : bool :=
+  match a, b with None, None => true | Some (x, y), Some (u, v) => Z.eqb x u && Z.eqb y v | _, _ => false end.
